@@ -25,5 +25,9 @@ Record Inv5 (s : stream) : Prop := {
             fail_pending s \/ (filt_stopping s = true /\ sink_told s);
   n_sink : src_quiet (s_pc s) = true -> fpc_idle (f_pc s) = true -> start_pre_src (c_start s) = false -> fail_pending s \/ sink_told s;
   (* acquire_start fails before the source thread exists *)
-  n_fp : fail_pending s -> spc_idle (s_pc s) = true
+  n_fp : fail_pending s -> spc_idle (s_pc s) = true;
+  (* an append that succeeded handed over at least one frame *)
+  n_pend : match k_pc s with KMainAppended _ j => 1 <= j | KFlushAppended k => 1 <= k | _ => True end;
+  (* as long as the sink is in its main loop, its flush or about to stop the storage, the storage is running *)
+  n_sto : sink_has_sto (k_pc s) = true -> sto_st s = HRunning
 }.
